@@ -411,7 +411,8 @@ SET_OF__encode_sorted(const asn_TYPE_member_t *elm,
 
         return encoded_els;
     } else {
-        SET_OF__encode_sorted_free(encoded_els, edx);
+        /* The element which failed may have left a partial buffer behind */
+        SET_OF__encode_sorted_free(encoded_els, list->count);
         return NULL;
     }
 }
@@ -474,6 +475,10 @@ SET_OF_encode_der(const asn_TYPE_descriptor_t *td, const void *sptr,
      * encoded elements.
      */
     encoded_els = SET_OF__encode_sorted(elm, list, SOES_DER);
+    if(encoded_els == NULL && list->count) {
+        /* Out of memory, or an element refused to be encoded */
+        ASN__ENCODE_FAILED;
+    }
 
     /*
      * Report encoded elements to the application.
@@ -1070,6 +1075,10 @@ SET_OF_encode_uper(const asn_TYPE_descriptor_t *td,
      * according to their encodings. Build an array of the encoded elements.
      */
     encoded_els = SET_OF__encode_sorted(elm, list, SOES_CUPER);
+    if(encoded_els == NULL && list->count) {
+        /* Out of memory, or an element refused to be encoded */
+        ASN__ENCODE_FAILED;
+    }
 
     for(encoded_edx = 0; (ssize_t)encoded_edx < list->count;) {
         ssize_t may_encode;
@@ -1081,19 +1090,26 @@ SET_OF_encode_uper(const asn_TYPE_descriptor_t *td,
         } else {
             may_encode =
                 uper_put_length(po, list->count - encoded_edx, &need_eom);
-            if(may_encode < 0) ASN__ENCODE_FAILED;
+            if(may_encode < 0) {
+                SET_OF__encode_sorted_free(encoded_els, list->count);
+                ASN__ENCODE_FAILED;
+            }
         }
 
         for(edx = encoded_edx; edx < encoded_edx + may_encode; edx++) {
             const struct _el_buffer *el = &encoded_els[edx];
             if(asn_put_many_bits(po, el->buf,
                                  (8 * el->length) - el->bits_unused) < 0) {
-                break;
+                /* The output callback refused the data */
+                SET_OF__encode_sorted_free(encoded_els, list->count);
+                ASN__ENCODE_FAILED;
             }
         }
 
-        if(need_eom && uper_put_length(po, 0, 0))
+        if(need_eom && uper_put_length(po, 0, 0)) {
+            SET_OF__encode_sorted_free(encoded_els, list->count);
             ASN__ENCODE_FAILED; /* End of Message length */
+        }
 
         encoded_edx += may_encode;
     }
